@@ -307,6 +307,17 @@ func checkC20(c *Ctx) {
 					report("the engine's entry point rejects a sentence of the grammar", "NewEvaluator + Process report no syntax error for a sentence of JsonQuery.g4", o.Line()+" "+o.ErrText, parA)
 					continue
 				}
+				if x.fam == "sentence" && x.t != nil && c.R.Chance(1, 3) {
+					// ... and what the entry point evaluates must be the tree the grammar prescribes: the sentence and the
+					// canonical spelling of its tree have the same outcome on an object built for that tree
+					m := c.zooObject(x.t).GoMap()
+					o1, o2 := evalFresh(x.s, m), evalFresh(c.style(true).Render(x.t), m)
+					if o1.E != "escaped" && o2.E != "escaped" && o1.E != "panic" && o2.E != "panic" && (o1.V != o2.V || o1.E != o2.E) {
+						report("the engine's entry point reads a sentence differently from the tree the grammar prescribes", "the outcome of the canonical spelling of its tree: "+o2.Line(), o1.Line()+" "+o1.ErrText, parA)
+						continue
+					}
+					c.count("evaluated_like_its_canonical_spelling")
+				}
 				c.count("accepted_by_the_entry_point_too")
 				c.count("accepted")
 				if strings.Count(g.Tokens, " ") >= 1 {
